@@ -6,6 +6,7 @@ import (
 	"strings"
 	"testing"
 
+	"github.com/xinchentechnote/fin-protoc/verifharness/cli"
 	"github.com/xinchentechnote/fin-protoc/verifharness/dsl"
 	"github.com/xinchentechnote/fin-protoc/verifharness/pbt"
 	"github.com/xinchentechnote/fin-protoc/verifharness/ref"
@@ -256,6 +257,14 @@ func TestC05(t *testing.T) {
 			return
 		}
 		k.Langs = ok
+		if cli.Bin() != "" && rapid.IntRange(0, 5).Draw(rt, "via_cli") == 0 {
+			k.ViaCLI = true
+			c.Class("files-written-by-cli-into-stale-directories")
+		}
+		if rapid.IntRange(0, 2).Draw(rt, "all_generators") == 0 {
+			k.AllGens = true
+			c.Class("all-six-generators-over-one-model")
+		}
 		c.EvalN(len(ok) * (len(k.Msgs) + len(k.Probes)))
 		for _, l := range ok {
 			c.Class("lang:" + l)
